@@ -58,6 +58,7 @@ pub fn load(name: &str, k: u16) -> Result<Big, String> {
         "synthetic:chain20" => BooleanNetwork::try_from(chain(20, false).as_str())?,
         "synthetic:chain40" => BooleanNetwork::try_from(chain(40, false).as_str())?,
         "synthetic:chain60" => BooleanNetwork::try_from(chain(60, false).as_str())?,
+        "synthetic:chain70" => BooleanNetwork::try_from(chain(70, false).as_str())?,
         // the same with an unknown (implicit, unconstrained) update function of the last variable
         "synthetic:chain58p" => BooleanNetwork::try_from(chain(58, true).as_str())?,
         _ => {
